@@ -10,98 +10,106 @@ TECH = "bounded model checking (Kani 0.68 / CBMC 6.11 + cadical) of graaf's own 
 
 # property -> (level text, level note, design ref)
 CLAIMED = {
-    "C01": ("Per representation: an arbitrary start digraph on 3 vertices (loaded through add_arc) followed by 2-3 symbolic "
-            "mutations (add / remove / matrix toggle / weighted re-add) with in-range, just-out-of-range and usize::MAX ids; order, "
-            "size, vertices(), has_arc for all pairs, arcs()/arcs_weighted() order and every remove_arc return value are compared with a "
-            "bit-matrix model in one SAT query per representation; every rejected call (self-loop, endpoint outside a fixed-order "
-            "digraph) is shown to panic on every path. Thorough: 4 vertices, 3-4 operations, matrix at order 8.",
-            "Bounds N<=3 (4), K<=3 (4); set/map/Vec models (f1); 'state unchanged after a caught panic' is not decided (no unwinding "
-            "under Kani).", "DESIGN.md §3 C01"),
-    "C02": ("The 14 blanket/default query implementations over all 4096 digraphs on 4 vertices (array digraph, real std), and per "
-            "representation every inherent query over all digraphs on 3 vertices incl. total queries with out-of-range / far-out ids, "
-            "walks of length 0..3, AdjacencyMap on the vertex set {0,2,3}, threaded degree_sequence with 2 threads; digraph unchanged.",
-            "Bounds N<=4 (array) / 3 (representations); models f1/f2; symbolic thread count only in the thorough tier.",
-            "DESIGN.md §3 C02"),
+    "C01": ("Per representation: an arbitrary start digraph (loaded through add_arc; 3 vertices, AdjacencyMap / weighted: 2) "
+            "followed by 1-3 symbolic mutations (add / remove / matrix toggle / weighted re-add, AdjacencyMap vertex growth) with "
+            "in-range, just-out-of-range and usize::MAX ids; order, size, vertices(), has_arc for all pairs, arcs()/arcs_weighted() "
+            "order, weights and every remove_arc return value are compared with a bit-matrix model in one SAT query per "
+            "representation; every rejected call (self-loop, endpoint outside a fixed-order digraph) panics on every path. Since "
+            "the start digraph is arbitrary, one further operation already covers histories of any length for that order. "
+            "Thorough: 4 vertices with 3-4 operations (list, edge list, matrix).",
+            "Bounds N<=3 (4), K<=3 (4), map keys < 4; set/map models (f1), real Vec; 'state unchanged after a caught panic' is not "
+            "decided (no unwinding under Kani).", "DESIGN.md §3 C01"),
+    "C02": ("The 14 blanket/default query implementations over all 4096 digraphs on 4 vertices (array digraph, real std; 5 "
+            "thorough), and per representation every inherent query over all digraphs on 3 vertices incl. the total queries with "
+            "out-of-range / far-out ids, walks of length 0..3, the sequences of an AdjacencyMap on vertex sets within {0,2,3}, the "
+            "threaded degree_sequence with 2 threads; the digraph is unchanged afterwards.",
+            "N<=4 (array) / 3 (representations); models f1/f2; the symbolic thread count and the full AdjacencyMap {0,2,3} query "
+            "set are experiments (exp tier) that do not finish here.", "DESIGN.md §3 C02"),
     "C03": ("Inductive argument checked by the solver: DijkstraDist::new establishes an invariant over (dist, heap, settled set) and "
             "one next() from ANY state satisfying it yields an unsettled vertex with its exact distance in non-decreasing order and "
             "re-establishes the invariant; at None exactly the reachable vertices were yielded and every distance is final. This "
             "covers runs of any length on every weighted digraph with 3 vertices (weights < 256 quick, < 2^62 thorough), for "
             "DijkstraDist and Dijkstra.",
-            "N=3, pre-states with <= 3 heap entries; heap/Vec models; oracle distances by relaxation; the distances() wrapper "
-            "(whole run) only in the thorough tier, where it is expected to run out of memory.", "DESIGN.md §1.3, §3 C03"),
-    "C04": ("Bfs, BfsDist and BfsDist::distances over every digraph on 4 vertices and every source set (16 symbolic bits): each "
-            "reachable vertex once, no other, non-decreasing and exact hop distances, MAX exactly at unreachable vertices.",
-            "N=4 (5 thorough) over the array digraph implementing graaf's public traits; deque/Vec models.", "DESIGN.md §3 C04"),
-    "C05": ("BfsPred::predecessors over all digraphs on 4 vertices x all source sets and shortest_path over all target predicates "
-            "(3 vertices quick): tree condition against oracle hop distances, None iff no reachable target, minimal length walk. "
-            "DijkstraPred: inductive base + step with the predecessor clause (every yield's predecessor is settled and explains "
-            "the distance).",
-            "N<=4 (BFS), N=3 / <=3 heap entries / weights < 256 (Dijkstra step); cycles() and the Dijkstra wrappers only thorough.",
-            "DESIGN.md §3 C05"),
-    "C06": ("Dfs, DfsDist, DfsPred over every digraph on 3 vertices x every source set: each vertex at most once, only reachable "
-            "ones, depth-first preorder / predecessor / depth against a harness-side search path. The known truncation defect is "
-            "isolated by its own assertion (KNOWN-FINDING); all other assertions stay armed.",
-            "N=3 (4 thorough); runs in which the known defect manifests are cut at that point; widened fields stack/visited.",
+            "N=3, pre-states with <= 3 heap entries; heap/Vec models; oracle distances by relaxation; whole-run harnesses "
+            "(distances() wrapper included) run out of memory and are kept as experiments only.", "DESIGN.md §1.3, §3 C03"),
+    "C04": ("Bfs, BfsDist and BfsDist::distances over every digraph on 4 vertices and every source set (16 symbolic bits; 5 vertices "
+            "thorough): each reachable vertex once, no other, non-decreasing and exact hop distances, MAX exactly at unreachable "
+            "vertices.",
+            "Generic code over an array digraph implementing graaf's public traits (not the five representations); deque/Vec models.",
+            "DESIGN.md §3 C04"),
+    "C05": ("BfsPred::predecessors over all digraphs on 4 vertices x all source sets and shortest_path over all digraphs on 3 "
+            "vertices x all source sets x all target predicates: tree condition against oracle hop distances, None iff no reachable "
+            "target, minimal-length walk from a source to a target. DijkstraPred: inductive base + step with the predecessor clause "
+            "(every yield's predecessor is settled and explains the distance; covers runs of any length, 3 vertices, weights < 256).",
+            "cycles() and the whole-run Dijkstra wrappers (predecessors(), shortest_path()) are experiments that run out of memory; "
+            "N<=4 (BFS), N=3 / <=3 heap entries (Dijkstra).", "DESIGN.md §3 C05"),
+    "C06": ("Dfs, DfsDist, DfsPred over every digraph on 3 vertices x every source set (4 vertices thorough): each vertex at most "
+            "once, only reachable ones, depth-first preorder / predecessor / depth against a harness-side search path. The known "
+            "truncation defect is isolated by its own assertion (KNOWN-FINDING); all other assertions stay armed.",
+            "Runs in which the known defect manifests are cut at that point; widened fields stack/visited; array digraph.",
             "DESIGN.md §3 C06, §5"),
-    "C07": ("BellmanFordMoore over every digraph on 3 vertices with <= 3..4 arcs (all residues of the 4x-unrolled loop), weights "
-            "-2..2, every source: None iff a negative circuit is reachable, else exact distances; also through "
-            "AdjacencyListWeighted<isize>. Thorough: 5-6 arcs, weights -8..8, weights up to 2^61.",
-            "N=3, M<=4, |w|<=2 in the quick tier; oracle = N-1 rounds of relaxation + one more.", "DESIGN.md §3 C07"),
+    "C07": ("BellmanFordMoore over every digraph on 3 vertices with <= 3 and <= 4 arcs (arc counts 0..4: every residue of the "
+            "4x-unrolled loop), weights -2..2, every source: None iff a negative circuit is reachable, else exact distances; also "
+            "through AdjacencyListWeighted<isize> (<= 2 arcs).",
+            "N=3, M<=4, |w|<=2; larger weight ranges / 5-6 arcs / weights up to 2^61 do not finish within an hour (exp).",
+            "DESIGN.md §3 C07"),
     "C08": ("FloydWarshall over every arc-weighted digraph without negative circuit on 2 vertices (weights -4..8) and 3 vertices "
-            "(weights -1..2): every pair against the min-plus closure and against Bellman-Ford per row; DistanceMatrix::new and "
-            "indexing inside the encoding.", "N<=3, small weights (wider weights / N=4 thorough).", "DESIGN.md §3 C08"),
-    "C11": ("complement, converse, union (different orders) and filter_vertices per representation over all digraphs on 3 (2 for "
-            "AdjacencyMap in the quick tier) vertices: vertex set, every pair, arcs(), operands unchanged, involution / "
-            "commutativity; AdjacencyList::complement with 2 threads; AdjacencyMap complement/converse on the vertex set {0,2,3}.",
-            "N<=3; thread count fixed at 2 in the quick tier (symbolic <= 4 thorough); models f1/f2.", "DESIGN.md §3 C11"),
+            "(weights -1..2; -4..8 thorough): every pair against the min-plus closure and against Bellman-Ford per row, 0 diagonal, "
+            "MAX iff unreachable; DistanceMatrix::new and indexing inside the encoding; AdjacencyListWeighted<isize> at order 2.",
+            "N<=3, small weights.", "DESIGN.md §3 C08"),
+    "C11": ("complement and converse per representation over all digraphs on 3 vertices (AdjacencyMap: 2 quick, 3 thorough), "
+            "union of digraphs of different order for AdjacencyMatrix and EdgeList, filter_vertices (AdjacencyMap): vertex set, "
+            "every pair, arcs(), operands unchanged, involution / commutativity; AdjacencyList::complement with 2 threads; "
+            "AdjacencyMap complement/converse on the vertex set {0,2,3}; weighted converse carries weights.",
+            "AdjacencyList::union and AdjacencyMap::union are NOT covered (exp: CBMC artifact / timeouts, DESIGN.md §4); thread count "
+            "fixed at 2.", "DESIGN.md §3 C11"),
     "C12": ("Every structural predicate against its definition over all digraphs on 3 (matrix: 4) vertices per representation, "
-            "AdjacencyMap also on {0,2,3}; sub/super/spanning over all pairs of digraphs with arbitrary vertex sets within 0..3 "
-            "(blanket code over array digraphs and real AdjacencyMap values).",
-            "N<=4; is_semicomplete threaded with 2 threads.", "DESIGN.md §3 C12"),
+            "AdjacencyMap also on {0,2,3}; is_subdigraph / is_superdigraph / is_spanning_subdigraph over all pairs of digraphs with "
+            "arbitrary (unequal, non-contiguous) vertex sets within 0..3 (blanket code over array digraphs).",
+            "N<=4; is_semicomplete threaded with 2 threads; the relations over real AdjacencyMap values are an experiment.",
+            "DESIGN.md §3 C12"),
     "C13": ("Memory-safety facets: nine traversal constructors + next() with an unconstrained source id, PredecessorTree with "
-            "unconstrained entries, AdjacencyMatrix::empty for an unconstrained order under wrapping arithmetic, DistanceMatrix::new, "
+            "unconstrained entries, AdjacencyMatrix::empty for an unconstrained order (release replay), DistanceMatrix::new, "
             "BellmanFordMoore::new, AdjacencyList::from(rows) followed by pointer-indexed operations, AdjacencyMap {0,2,3} "
             "converse/is_semicomplete/is_tournament: every execution ends in a return or a panic, no failed pointer check "
-            "(CBMC memory-safety checks on, real Vec or exact-size model vectors). Failures are replayed natively and under Miri.",
-            "Leak-freedom is NOT decided (see not_applicable note in DESIGN.md §4); 3-vertex digraphs.", "DESIGN.md §3 C13"),
+            "(CBMC memory-safety checks on; real Vec or exact-size model vectors). Failures are replayed natively and under Miri.",
+            "Leak-freedom is NOT decided (DESIGN.md §4); 3-vertex digraphs.", "DESIGN.md §3 C13"),
     "C14": ("Every generator of every representation at orders 1..5 (matrix also 8 and 9: on and across the 64-bit block "
-            "boundary), bicliques, trivial/claw/utility, AdjacencyList::complete with 2 threads, against closed-form definitions; "
-            "every inadmissible parameter panics on every path.",
+            "boundary; 6..12 thorough), bicliques, trivial/claw/utility, AdjacencyList::complete with 2 threads, against closed-form "
+            "definitions; every inadmissible parameter panics on every path.",
             "Orders are concrete per harness (the solver adds little here); orders 'well above 64' are outside the bound.",
             "DESIGN.md §3 C14"),
     "C15": ("next_f64 in [0,1) for every 256-bit generator state; random_tournament / random_recursive_tree / erdos_renyi of order "
             "3 for EVERY u64 seed (real PRNG, symbolic seed) and every p in [0,1]: structural validity, p=0 / p=1, rejection of p "
-            "outside [0,1]; AdjacencyMap variants with 2 workers.",
-            "Order 3; interleavings of the AdjacencyMap workers are not explored (sequential thread model); determinism only "
-            "thorough.", "DESIGN.md §3 C15"),
-    "C16": ("All From conversions between the four representations (+ weighted targets) over all digraphs on 3 (AdjacencyMap: 2 in "
-            "the quick tier) vertices; from(rows) with self-loops / out-of-range heads (valid: exact rows, invalid: panics on every "
-            "path); from(arcs) with <= 3 symbolic arcs incl. duplicates and the empty iterator.",
-            "N<=3, K<=3, ids < 4.", "DESIGN.md §3 C16"),
-    "C17": ("Configuration quantifier: AdjacencyList::{complement, degree_sequence, is_semicomplete, complete} equal their "
-            "single-threaded definitions on all digraphs of order 3 for exactly 1, 2 and 4 available CPUs (chunks of 3, 2+1, 1 rows); "
-            "AdjacencyMap::random_tournament stays a tournament with 2 workers. Thorough: union, 3/8/16 CPUs, symbolic CPU count.",
-            "Interleavings are NOT decided (sequential thread model); thread counts enumerated per harness in the quick tier.",
-            "DESIGN.md §3 C17, §4"),
+            "outside [0,1] (7 representatives incl. NaN and infinities); AdjacencyMap variants with 2 workers.",
+            "Determinism is NOT decided (proving two copies of SplitMix64's multipliers equal is beyond the SAT back end: "
+            "timeout); interleavings of the AdjacencyMap workers are not explored; EdgeList::erdos_renyi runs out of memory.",
+            "DESIGN.md §3 C15"),
+    "C16": ("All From conversions between the four representations (+ weighted targets) over all digraphs on 3 vertices (those "
+            "involving AdjacencyMap: 2 quick, 3 thorough); from(rows) with self-loops / out-of-range heads (valid: exact rows, "
+            "invalid: panics on every path); from(arcs) with <= 2..3 symbolic arcs incl. duplicates and the empty iterator.",
+            "N<=3, K<=3, ids < 4; AdjacencyMatrix::from(arcs) with the fixed-size vector model (the order is symbolic).",
+            "DESIGN.md §3 C16"),
+    "C17": ("Configuration quantifier: on all digraphs of order 3, AdjacencyList::complement with exactly 1 and 2 CPUs, "
+            "degree_sequence and is_semicomplete with 2 and 4 (thorough: 1 and 3), complete(5) with 2 CPUs equal their "
+            "single-threaded definitions; AdjacencyMap::random_tournament stays a tournament with 2 (thorough: 4) workers, "
+            "AdjacencyMap::erdos_renyi a simple digraph with 2 (thorough).",
+            "Interleavings are NOT decided (sequential thread model); union (list and map), complement with > 2 CPUs, "
+            "complete(5) with other counts and the symbolic CPU count do not finish here (exp).", "DESIGN.md §3 C17, §4"),
     "C18": ("DistanceMatrix<usize|isize>: new, (u,v) indexing, row-major layout, eccentricities, diameter, center, periphery, "
-            "is_connected for every matrix of order 1..3 with entries <= infinity (all ties, all-infinite, diagonal maxima).",
-            "Order <= 3 (4 thorough); Vec model.", "DESIGN.md §3 C18"),
-    "C19": ("Every predecessor vector of length 4 (cyclic, self-referential), every start, every predicate: result = chain up to "
-            "the first target; termination via a bound on predicate evaluations; search = search_by with equality.",
-            "L=4 (6 thorough); Vec model.", "DESIGN.md §3 C19"),
+            "is_connected for every matrix of order 1 and 2 (isize order 3 thorough) with entries <= infinity (ties, all-infinite, "
+            "diagonal maxima).", "Order <= 2 (3); Vec model.", "DESIGN.md §3 C18"),
+    "C19": ("Every predecessor vector of length 4 (6 thorough; cyclic, self-referential), every start, every predicate (vertex "
+            "mask, optionally 'has no predecessor'): Some iff a target is reached before the chain ends or repeats, path = the chain "
+            "up to the first target; termination via a bound on predicate evaluations (non-termination becomes a replayable "
+            "assertion failure); search = search_by with equality.", "L=4 (6); Vec model.", "DESIGN.md §3 C19"),
     "C20": ("Two arbitrary digraphs on 3 vertices built through different histories (adds vs. complete-then-remove/toggle): == "
-            "iff same abstract digraph, cmp/hash consistent; same arcs with orders 2 vs 3 never equal; clone equal and independent "
-            "under an arbitrary mutation. AdjacencyMatrix: the real derived impls on the real blocks.",
+            "iff same abstract digraph, cmp/hash consistent; same arcs with orders 2 vs 3 never equal; AdjacencyMap pairs with "
+            "vertex sets within {0,2,3} (isolated vertices) equal iff same vertex set and arcs; clone equal and independent under "
+            "an arbitrary mutation. AdjacencyMatrix: the real derived impls on the real blocks.",
             "N=3; for the BTree-backed representations Eq/Ord/Hash of the containers are the models' (validated against std by "
             "differential tests).", "DESIGN.md §3 C20"),
-    "C19_": None,
 }
-CLAIMED.pop("C19_")
-CLAIMED["C19"] = ("Every predecessor vector of length 4 (cyclic, self-referential), every start, every predicate (vertex mask, "
-                  "optionally 'has no predecessor'): Some iff a target is reached before the chain ends or repeats, path = the chain "
-                  "up to the first target; termination via a bound on predicate evaluations (non-termination becomes a replayable "
-                  "assertion failure); search = search_by with equality.",
-                  "L=4 (6 thorough); Vec model.", "DESIGN.md §3 C19")
 
 NOT_APPLICABLE = {
     "C09": "encodable (harness c09_array_n3 with bounded recursion exists) but the query does not finish: Tarjan::components over "
